@@ -54,7 +54,7 @@ MANIFEST = {
             'of three syntaxes are rejected iff Python rejects the '
             'expression, with a located ParseError (SyntaxError only for '
             'explicit expr=).',
-    'more': 'Also: every grammar violation and every corpus template inside literal text that looks like the beginning of a tag / entity or contains characters that are line boundaries for str.splitlines() but not line ends; continuation arrangements with empty and line-end-only sections.',
+    'more': 'Also: every grammar violation and every corpus template inside literal text that looks like the beginning of a tag / entity or contains characters that are line boundaries for str.splitlines() but not line ends; continuation arrangements with empty and line-end-only sections. Corpus: entity references directly behind end / continuation tags, variables called var, if, in, end.',
     'note': 'Trusted: the construction of the grammar-violation table (each '
             'entry violates exactly one stated rule); CPU budget 4 s per '
             'compile (normal: < 1 ms).  Nesting deeper than the Python '
